@@ -44,8 +44,10 @@ def run_correspondence(ctx, profile, n, k1=None, corpus=True, batch=400):
 
 
 def run_twin(ctx, name, scenarios, shrink=True):
-    """run an implementation-only relation over scenarios"""
-    fn = TWINS[name]
+    """run an implementation-only relation over scenarios (on the library's own generator objects: the recording
+    subclass used by the correspondence overrides copying / pickling and is not needed here)"""
+    from .. import twinlib as T
+    fn = T.plain_rng(TWINS[name])
     found = 0
     for scn in scenarios:
         ctx.twins_run += 1
@@ -75,7 +77,8 @@ def replay(payload):
     if kind == "correspondence":
         return corr_fails(scn, (payload.get("detail") or {}).get("k1"))
     if kind.startswith("twin:"):
-        return TWINS[kind[5:]](scn)
+        from .. import twinlib as T
+        return T.plain_rng(TWINS[kind[5:]])(scn)
     return "unknown replay kind %r" % kind
 
 
